@@ -47,11 +47,12 @@ func NewReflector[S, A any](t hseq.Type[S]) Reflector[A] {
 	ft := t.Type
 	fv := reflect.TypeOf(new(A)).Elem()
 
-	if ft == fv {
+	cat := reflect.TypeOf(new(S)).Elem()
+
+	if cat.Kind() == reflect.Struct && ft == fv {
 		return &lens[S, A]{t}
 	}
 
-	cat := reflect.TypeOf(new(S)).Elem()
 	panic(fmt.Errorf("invalid type: Reflector[%s, %s] not compatible with %s", cat.Name(), ft.Name(), fv.Name()))
 }
 
